@@ -69,7 +69,22 @@ def _registry_access(ck, repo):
     for m in ("register_directive", "register_resolver", "register_type_resolver", "register_scalar", "register_subscription"):
         f = repo.func(REG, f"SchemaRegistry.{m}")
         c = FuncView(f).maybe_call("_register")
-        ok = c is not None and arg_text(c, 0) == f.positional_params[0] and arg_text(c, 2) == f.positional_params[1]
+        # bind the call to _register's own signature, whatever the order of its parameters
+        reg = repo.func(REG, "SchemaRegistry._register")
+        rp = reg.positional_params
+        key_p = next((q for q in rp if any(isinstance(x, ast.Call) and isinstance(x.func, ast.Attribute) and x.func.attr == "setdefault" and unparse(x.func.value).endswith("._schemas")
+                                           and x.args and unparse(x.args[0]) == q for x in ast.walk(reg.node))
+                      or any(isinstance(x, ast.Subscript) and unparse(x.value).endswith("._schemas") and unparse(x.slice) == q for x in ast.walk(reg.node))), None)
+        obj_p = next((q for q in rp if any(isinstance(x, ast.Attribute) and x.attr == "name" and unparse(x.value) == q for x in ast.walk(reg.node))), None)
+        bound = {}
+        if c is not None:
+            for i_, a_ in enumerate(c.args):
+                if i_ < len(rp):
+                    bound[rp[i_]] = unparse(a_)
+            for k_ in c.keywords:
+                if k_.arg:
+                    bound[k_.arg] = unparse(k_.value)
+        ok = c is not None and key_p is not None and obj_p is not None and bound.get(key_p) == f.positional_params[0] and bound.get(obj_p) == f.positional_params[1]
         ck.ob(f"SchemaRegistry.{m} forwards its schema name and object to _register", ok, f, c or f.node, construct=f"register:{m}")
     b = repo.func(REG, "SchemaRegistry.bake_registered_objects")
     bv = FuncView(b)
